@@ -97,6 +97,14 @@ class OpaqueFn:
         self.name = name
 
 
+class PyCallable:
+    """analysis-side callable handed to the analysed code (e.g. a recording solver)"""
+
+    def __init__(self, fn, name='callable'):
+        self.fn = fn
+        self.name = name
+
+
 class ArrMethod:
     def __init__(self, obj, name):
         self.obj = obj
@@ -135,6 +143,21 @@ _EXC_NAMES = {'Exception', 'TypeError', 'ValueError', 'AttributeError', 'NotImpl
               'KeyError', 'ZeroDivisionError', 'RuntimeError'}
 
 
+_LOCALS_CACHE = {}
+
+
+def _assigned_names(node):
+    k = id(node)
+    r = _LOCALS_CACHE.get(k)
+    if r is None:
+        r = set()
+        for n in ast.walk(node):
+            if isinstance(n, ast.Name) and isinstance(n.ctx, ast.Store):
+                r.add(n.id)
+        _LOCALS_CACHE[k] = r
+    return r
+
+
 class Frame:
     def __init__(self, module, fi=None, self_obj=None):
         self.module = module
@@ -142,6 +165,7 @@ class Frame:
         self.vars = {}
         self.self_obj = self_obj
         self.capture = None      # loop-map capture dict or None
+        self.locals = _assigned_names(fi.node) if fi is not None else set()
 
 
 class Interp:
@@ -155,6 +179,9 @@ class Interp:
         self.events = ctx.events
         self.cur_line = None
         self.cur_file = None
+        self.oplog = []              # ('call', qualname, objid) / ('read'|'write', attr, objid)
+        self.watch_attrs = {'_BCsTerm', '_value', 'BCs'}
+        self.recorded_solves = []
 
     # ------------------------------------------------------------------------------------------
     # calling repo functions
@@ -165,6 +192,7 @@ class Interp:
         if key in self.opaque_summaries:
             return self.opaque_summaries[key](self, args, kwargs)
         self.funcs_seen.add(f"{fi.module}.{fi.qualname}")
+        self.oplog.append(('call', fi.qualname, self_obj.id if isinstance(self_obj, AObj) else None))
         self.call_depth += 1
         if self.call_depth > 40:
             raise AnalysisError("call depth exceeded (recursion?)")
@@ -266,7 +294,10 @@ class Interp:
                 if isinstance(cur, Box):
                     self._note_write(cur, st.lineno)
                     cur.cur = snap(val)
-                    cur.log.append((('inplace',), snap(val), st.lineno))
+                    if A.is_flatvec(val):
+                        cur.log = []
+                    else:
+                        cur.log.append((('inplace',), snap(val), st.lineno))
                 else:
                     self.store_subscript(cur.base, cur.key, val, st.lineno)
                 return
@@ -527,6 +558,8 @@ class Interp:
                 return
             if self.sm.find_getter(obj.cls, name) is not None:
                 raise AbstractRaise('AttributeError', f"property '{name}' of '{obj.cls}' object has no setter")
+            if name in self.watch_attrs:
+                self.oplog.append(('write', name, obj.id))
             obj.attrs[name] = v
             return
         if isinstance(obj, (Box, View)):
@@ -572,6 +605,8 @@ class Interp:
             if n in f.vars:
                 return f.vars[n]
             f = getattr(f, 'parent', None)
+        if n in fr.locals:
+            raise AbstractRaise('UnboundLocalError', f"cannot access local variable '{n}' where it is not associated with a value", getattr(e, 'lineno', None))
         return self.global_name(fr.module, n, e)
 
     def global_name(self, module, n, e=None):
@@ -618,6 +653,8 @@ class Interp:
                 raise AnalysisError("np.inf")
             return NPFunc(name)
         if isinstance(obj, AObj):
+            if name in self.watch_attrs:
+                self.oplog.append(('read', name, obj.id))
             if name in obj.attrs:
                 return obj.attrs[name]
             g = self.sm.find_getter(obj.cls, name)
@@ -636,7 +673,7 @@ class Interp:
                     ci = self.sm.cls(c)
                     if name in ci.methods:
                         return ABound(obj.obj, ci.methods[name])
-            raise AbstractRaise('AttributeError', f"super object has no attribute {name}")
+            return Builtin('noop')
         if isinstance(obj, AClassRef):
             if name == '__name__':
                 return AStr(obj.name)
@@ -662,7 +699,16 @@ class Interp:
                 return ArrMethod(obj, 'item')
             raise AbstractRaise('AttributeError', f"'float' object has no attribute '{name}'")
         if isinstance(obj, (str, tuple, list, dict)):
-            return ArrMethod(obj, name)
+            ok = {str: ('format', 'join', 'startswith', 'endswith', 'lower', 'upper'), tuple: ('index', 'count'),
+                  list: ('append', 'extend', 'index', 'count'), dict: ('get', 'keys', 'items', 'values')}
+            for ty, names in ok.items():
+                if isinstance(obj, ty) and name in names:
+                    return ArrMethod(obj, name)
+            raise AbstractRaise('AttributeError', f"'{type(obj).__name__}' object has no attribute '{name}'")
+        if isinstance(obj, OpaqueFn) or isinstance(obj, AFuncRef):
+            raise AbstractRaise('AttributeError', f"'function' object has no attribute '{name}'")
+        if obj is None:
+            raise AbstractRaise('AttributeError', f"'NoneType' object has no attribute '{name}'")
         raise AbstractRaise('AttributeError', f"{type(obj).__name__} object has no attribute '{name}'")
 
     def arr_attr(self, obj, name):
@@ -745,6 +791,8 @@ class Interp:
             return -v
         if isinstance(v, ASparse):
             return ASparse([dict(en, sign=-en['sign']) for en in v.entries], v.shape, v.issues)
+        if A.is_flatvec(v):
+            return Box(A.veclin(self.ctx, ast.Mult(), Rat.const(-1), v))
         if is_arraylike(v):
             return Box(A.elementwise(self.ctx, lambda x: -x, [v], kind=snap(v).kind, origin=lineno))
         if isinstance(v, AObj):
@@ -879,6 +927,10 @@ class Interp:
             return self.sparse_binop(t, a, b)
         if isinstance(a, Rat) and isinstance(b, Rat):
             return self.scalar_binop(t, a, b, lineno)
+        if A.is_flatvec(a) or A.is_flatvec(b):
+            r = A.veclin(self.ctx, op, a, b)
+            if r is not None:
+                return Box(r)
         if (is_arraylike(a) or isinstance(a, Rat)) and (is_arraylike(b) or isinstance(b, Rat)):
             interp = self
 
@@ -1093,11 +1145,16 @@ class Interp:
         if isinstance(f, Builtin):
             from .npmodel import call_builtin
             return call_builtin(self, f.name, args, kwargs, lineno, fr)
+        if isinstance(f, PyCallable):
+            return f.fn(args, kwargs)
         if isinstance(f, OpaqueFn):
-            if len(args) != 1:
-                raise AnalysisError("opaque function arity")
             nm = f.name
-            return Box(A.elementwise(self.ctx, lambda x: A.opaque_fn(nm, x), [args[0]], origin=lineno))
+            if len(args) == 1:
+                if isinstance(args[0], Rat):
+                    return A.opaque_fn(nm, args[0])
+                return Box(A.elementwise(self.ctx, lambda x: A.opaque_fn(nm, x), [args[0]], origin=lineno))
+            f.calls = getattr(f, 'calls', 0) + 1
+            return Box(A.elementwise(self.ctx, lambda *xs: Rat.atom(('fnN', nm) + tuple(xs)), list(args), origin=lineno))
         raise AbstractRaise('TypeError', f"{type(f).__name__} object is not callable")
 
     def _call_closure(self, f, cl, args, kwargs):
